@@ -26,7 +26,7 @@ SCHED_RULE = ('seeded random schedules + a systematic family (slow always-on pro
 
 prop('C01', 'other',
      'PROVED on the real source of Engine.run_for (463 obligations, all loops cut at invariants, any number of processes visited in any order, any sequence of timestep/condition answers, any call sequence -- the invariant is the pre- and postcondition): ghost ledger on Defer objects: a pending update is never overwritten (assert before the store into front), every token handed to _send_updates is issued, unconsumed and due exactly now, _send_updates consumes each collected token exactly once (Defer.get precondition) and no other, consumed tokens satisfy applied_at == due, no pending update crosses a call boundary. ASSUMED: behavioural contracts of user processes and of Defer.get / Store.apply_update (trusted, bounded-checked), floats as reals, no global_time_precision (that instance is bounded only), interval > 0, and the region of the known finding F-C03-shrink is excluded by an explicit environment assumption. BOUNDED: the observable form (accumulating variables at every emitted time == sum of updates whose interval ended) and the token discipline on the real engine.',
-     drivers=[('bounded.sched', ['--prop', 'C01']), ('bounded.struct', ['--prop', 'C01'])], rule=SCHED_RULE, assumptions=[FLOATS])
+     drivers=[('bounded.sched', ['--prop', 'C01']), ('bounded.struct', ['--prop', 'C01']), ('bounded.c12', [])], rule=SCHED_RULE, assumptions=[FLOATS])
 prop('C02', 'other',
      'PROVED on the real source of Engine.run_for (463 obligations, all loops cut at invariants, any number of processes visited in any order, any sequence of timestep/condition answers, any call sequence -- the invariant is the pre- and postcondition): at the only call site of _process_update the timestep handed over equals future - process_time (ghost assert; under forced truncation it is end_time - process_time), tokens carry g_dt == g_due - g_start, and after run_for(force_complete=True) every front is at global_time with nothing pending, which discharges the two run-time asserts of _check_complete as obligations. BOUNDED: clock-like variables equal elapsed time on the real engine, contiguity of intervals.',
      drivers=[('bounded.sched', ['--prop', 'C02']), ('bounded.struct', ['--prop', 'C02'])], rule=SCHED_RULE, assumptions=[FLOATS])
@@ -67,13 +67,13 @@ prop('C15', 'exploration',
      'BOUNDED ONLY (Store._apply_config / generate are schema-driven code outside the translated subset): after '
      'construction every declared variable exists at addr(q) holding the initial value if given else the declared default; '
      'glob children named in the initial state get the sub-schema defaults; nested globs with explicitly wired inner children.',
-     drivers=[('bounded.topo', ['--prop', 'C15']), ('bounded.c13', ['--only', 'override', '--prop', 'C15'])], rule=TOPO_RULE)
+     drivers=[('bounded.topo', ['--prop', 'C15']), ('bounded.c13', ['--only', 'override', '--prop', 'C15']), ('bounded.c16', ['--only', 'fresh', '--prop', 'C15'])], rule=TOPO_RULE)
 STRUCT_RULE = ('seeded random structural histories (<=3/4 ticks, 1-2 operations per tick from _add,_delete,_generate,_divide,'
                '_move plus value updates) against a reference model of the value tree, node identities, live-set bookkeeping')
 prop('C09', 'exploration',
      'BOUNDED ONLY so far: after every batch the value tree equals the reference model of the documented meaning of the '
      'operations (double entry), all nodes not named by an operation keep identity and value, division conserves.',
-     drivers=[('bounded.struct', ['--prop', 'C09']), ('bounded.c17', [])], rule=STRUCT_RULE)
+     drivers=[('bounded.struct', ['--prop', 'C09']), ('bounded.c17', []), ('bounded.steps', ['--prop', 'C09'])], rule=STRUCT_RULE)
 prop('C10', 'other',
      'PROVED: Engine._delete_path removes from the published processes/steps/topology/flow exactly the entry at the deleted path (tdel) and forgets all and only the process and step paths that have the deleted path as a prefix (starts_with == prefix, proved); run_for drops the fronts of deleted paths and gives new paths a front at the current global time (part of the run_for invariant); Engine.apply_update (second contract #bookkeeping): published topology/flow == old ones with EVERY entry reported by Store.apply_update written in order, then every reported deletion removed; every reported process not below a deletion is scheduled, everything below a deletion is forgotten; a reported step without a reported flow entry becomes a legacy sequential step; _add_step_path/_add_process_path register exactly what they are given. NOT PROVED: what Store.apply_update / Store.move / insert / divide report (named, not specified). BOUNDED: after every batch of a structural history engine paths == processes/steps in the Store tree, published composite == state.get_*(), invocation counts; steps that join through _generate run in every later phase in the documented order.',
      drivers=[('bounded.struct', ['--prop', 'C10']), ('bounded.steps', ['--prop', 'C10'])], rule=STRUCT_RULE)
@@ -82,7 +82,7 @@ prop('C05', 'other',
      drivers=[('bounded.steps', ['--prop', 'C05']), ('bounded.struct', ['--prop', 'C10'])])
 prop('C04', 'other',
      'PROVED: in run_for every process invocation of one pass happens inside the polling loop, in which no update is applied (apply_update is only reachable through _send_updates after the loop; the loop is verified for an arbitrary visiting order of process_paths); in run_steps no update is applied while a layer is computed (ghost g_version frozen in the compute loop) and the views are valid (rebuilt after any expiring update) before the next layer or the next process is invoked (ghost g_views_valid, precondition of _process_state). BOUNDED: processes started together are shown identical states; steps of one layer see one committed state; the emitted trajectory is identical under permutations of the listing order (relational conclusion, not a postcondition of one call).',
-     drivers=[('bounded.steps', ['--prop', 'C04']), ('bounded.sched', ['--prop', 'C04'])])
+     drivers=[('bounded.steps', ['--prop', 'C04']), ('bounded.sched', ['--prop', 'C04']), ('bounded.struct', ['--prop', 'C04'])])
 
 prop('C08', 'other',
      'PROVED (all inputs): update_set, update_null, update_accumulate (int/float/mixed), update_nonnegative_accumulate (scalar branch) and update_merge (result is the right-biased deep merge of the update into the current value: unmentioned keys kept, new keys added, nested dicts merged) with deep_merge by contract. BOUNDED: the same laws through the real Store.apply_update (default updater, per-update _updater by name or function, _multi_update batches, dict_value, user functions, numpy arrays, units, unmentioned variables untouched, update object not modified).',
